@@ -307,6 +307,9 @@ func runUnit(w *World, pk *Pkg, c *Contract) (res *UnitResult) {
 		e.spec--
 		e.obligeNamed(final, fmt.Sprintf("post#%d", i), "post", v.T, decl.Pos(), fmt.Sprintf("postcondition %q", en.Text), en.Prop)
 	}
+	if ft := c.Opts["freshresult"]; ft != "" && len(fr.results) > 0 {
+		e.freshResult(final, fr, ft, decl.Pos())
+	}
 	// frame: with an explicit modifies clause, every other heap must be unchanged on pre-existing references
 	if c.ModSet {
 		allowed := map[string]bool{}
@@ -502,4 +505,59 @@ func (e *Engine) lookupTypeExpr(pk *Pkg, txt string) types.Type {
 		return types.NewPointer(obj.Type())
 	}
 	return obj.Type()
+}
+
+// freshResult (`opt freshresult *pkg.T`): the result holds a *T; every field of the struct - exported or not - that is
+// a pointer to a helper struct (not itself a node the contract speaks about) or a slice must point to memory allocated
+// during the call: the copy shares no mutable helper object or backing array with anything that existed before.
+func (e *Engine) freshResult(final *State, fr *frame, typ string, p token.Pos) {
+	t := e.lookupTypeExpr(e.pk, typ)
+	if t == nil {
+		return
+	}
+	pt, ok := t.(*types.Pointer)
+	if !ok {
+		return
+	}
+	st, ok := pt.Elem().Underlying().(*types.Struct)
+	if !ok {
+		return
+	}
+	var rv Value
+	if o, ok := fr.results[0].(types.Object); ok {
+		rv = e.lookupVarIn(final, o)
+	} else {
+		rv = final.vars[fr.results[0]]
+	}
+	ptr := rv
+	if _, isI := types.Unalias(fr.restyps[0]).Underlying().(*types.Interface); isI {
+		ptr = e.unbox(rv.T, t)
+	}
+	skip := map[string]bool{}
+	for _, n := range strings.Fields(e.c.Opts["freshskip"]) {
+		skip[n] = true
+	}
+	for i := 0; i < st.NumFields(); i++ {
+		f := st.Field(i)
+		if skip[f.Name()] {
+			continue
+		}
+		ft := types.Unalias(f.Type())
+		switch u := ft.Underlying().(type) {
+		case *types.Pointer:
+			if _, isStruct := u.Elem().Underlying().(*types.Struct); !isStruct {
+				continue
+			}
+			if strings.Contains(e.c.Opts["freshnodes"], " "+types.TypeString(u.Elem(), nil)+" ") {
+				continue // a node child: its independence is the clone function's own postcondition
+			}
+			v := e.loadField(final, ptr.T, pt.Elem(), f.Name(), f.Type())
+			e.obligeNamed(final, "fresh:"+f.Name(), "post", or(eq(v.T, e.izero()), e.lt(e.entry.top, v.T)), p,
+				"field "+f.Name()+" of the result is nil or points to an object allocated during the call (no sharing with the original)", "")
+		case *types.Slice:
+			v := e.loadField(final, ptr.T, pt.Elem(), f.Name(), f.Type())
+			e.obligeNamed(final, "fresh:"+f.Name(), "post", or(eq(sx("l_len", v.T), e.izero()), e.lt(e.entry.top, sx("l_ref", v.T))), p,
+				"slice field "+f.Name()+" of the result is empty or has a backing array allocated during the call (no sharing with the original)", "")
+		}
+	}
 }
